@@ -91,8 +91,8 @@ def r2_2_message_type(ctx, prog):
     ctx.ob("R2.2", "method-range", okm, "MessageMethod::try_from tests value & 0xF000", info["where"])
 
 
-def r2_3_layouts(ctx, prog):
-    ctx.rule("R2.3", "field layouts as expression trees: ERROR-CODE (class = byte 2 & 0x07, number = byte 3, code = class*100 + "
+def r2_3_layouts(ctx, prog, rule="R2.3"):
+    ctx.rule(rule, "field layouts as expression trees: ERROR-CODE (class = byte 2 & 0x07, number = byte 3, code = class*100 + "
                      "number; bytes 0-1 written as zero), ICMP (type << 9 | code; >> 9 and & 0x1ff), EVEN-PORT 0x80")
     ec = "stun_rs::types::ErrorCode"
     paths, info = C.explore_fn(prog, "<%s as stun_rs::Decode<'_>>::decode" % ec, "x", [r"\{closure"])
@@ -104,11 +104,17 @@ def r2_3_layouts(ctx, prog):
         r = C.expr_of(pa, pa.ret)
         s = repr(r)
         found = True
-        ok = "('op:Add', ('op:Mul', ('op:BitAnd', 'top:elem', 7), 100), 'top:elem')" in s or \
-             ("op:Mul" in s and "('op:BitAnd', 'top:elem', 7)" in s and ", 100)" in s)
-        ctx.ob("R2.3", "error-code:decode", ok, "decoded code = %s" % show(r)[:220], info["where"])
+        ok = "('op:Add', ('op:Mul', ('op:BitAnd', 'top:raw_value[2]', 7), 100), 'top:raw_value[3]')" in s
+        rngs = {}
+        for e in pa.calls:
+            if "contains" in e[1]:
+                a = C.expr_of(pa, e[2])
+                rngs[repr(a[1])] = a[0]
+        okr = rngs.get(repr(("op:BitAnd", "top:raw_value[2]", 7))) == ("new", 3, 6) and rngs.get(repr("top:raw_value[3]")) == ("new", 0, 99)
+        ctx.ob(rule, "error-code:decode-ranges", okr, "class / number range tests: %s" % {k[:40]: v for k, v in rngs.items()}, info["where"])
+        ctx.ob(rule, "error-code:decode", ok, "decoded code = %s" % show(r)[:220], info["where"])
         break
-    ctx.ob("R2.3", "error-code:decode-found", found, "ErrorCode::decode has an Ok path", info["where"])
+    ctx.ob(rule, "error-code:decode-found", found, "ErrorCode::decode has an Ok path", info["where"])
     for fn, div in (("class", True), ("number", False)):
         paths, info = C.explore_fn(prog, "%s::%s" % (ec, fn), "e", [r"ErrorCode::number$"])
         for pa in paths:
@@ -118,7 +124,7 @@ def r2_3_layouts(ctx, prog):
                 ok = "('op:Rem', 'top:e.error_code', 100)" in s
             else:
                 ok = "('op:Div', ('op:Sub', 'top:e.error_code'" in s and ", 100)" in s
-            ctx.ob("R2.3", "error-code:%s" % fn, ok, "%s() = %s" % (fn, show(r)[:200]), info["where"])
+            ctx.ob(rule, "error-code:%s" % fn, ok, "%s() = %s" % (fn, show(r)[:200]), info["where"])
             break
     ic = "stun_rs::attributes::turn::icmp::Icmp"
     if prog.body("<%s as stun_rs::attributes::EncodeAttributeValue>::encode" % ic, required=False) is not None:
@@ -132,14 +138,14 @@ def r2_3_layouts(ctx, prog):
                     s = repr(v)
                     if "('op:BitOr', ('op:Shl'" in s and ", 9)" in s:
                         okk = True
-        ctx.ob("R2.3", "icmp:encode", okk, "ICMP encodes (type << 9) | code", info["where"])
+        ctx.ob(rule, "icmp:encode", okk, "ICMP encodes (type << 9) | code", info["where"])
         paths, info = C.explore_fn(prog, "<%s as stun_rs::attributes::DecodeAttributeValue>::decode" % ic, "x", [r"\{closure", r"AttributeDecoderContext"])
         okd = False
         for pa in paths:
             s = repr([C.expr_of(pa, e[2]) for e in pa.calls])
             if "('op:Shr'" in s and ", 9)" in s and "511" in s:
                 okd = True
-        ctx.ob("R2.3", "icmp:decode", okd, "ICMP decodes with >> 9 and & 0x1ff", info["where"])
+        ctx.ob(rule, "icmp:decode", okd, "ICMP decodes with >> 9 and & 0x1ff", info["where"])
     ep = "stun_rs::attributes::turn::even_port::EvenPort"
     if prog.body("<%s as stun_rs::attributes::EncodeAttributeValue>::encode" % ep, required=False) is not None:
         b = prog.body("<%s as stun_rs::attributes::EncodeAttributeValue>::encode" % ep)
@@ -148,7 +154,20 @@ def r2_3_layouts(ctx, prog):
             for s in blk["stmts"]:
                 if s["k"] == "assign" and s["rv"]["k"] == "use" and s["rv"]["op"]["k"] == "const" and "bits" in s["rv"]["op"] and b.tystr(s["rv"]["op"]["ty"]) == "u8":
                     consts.add(int(s["rv"]["op"]["bits"]))
-        ctx.ob("R2.3", "even-port:encode", consts == {0x80, 0x00}, "EVEN-PORT byte values %s" % sorted(hex(c) for c in consts), b.where())
+        ctx.ob(rule, "even-port:encode", consts == {0x80, 0x00}, "EVEN-PORT byte values %s" % sorted(hex(c) for c in consts), b.where())
+        d = prog.body("<%s as stun_rs::attributes::DecodeAttributeValue>::decode" % ep)
+        masked = set()
+        okd = False
+        for blk in d.blocks:
+            for st_ in blk["stmts"]:
+                if st_["k"] == "assign" and st_["rv"]["k"] == "binop":
+                    rv = st_["rv"]
+                    cb = rv["b"].get("bits") if rv["b"]["k"] == "const" else None
+                    if rv["op"] == "BitAnd" and cb == "128":
+                        masked.add(st_["place"]["l"])
+                    if rv["op"] == "Eq" and cb == "128" and rv["a"]["k"] in ("copy", "move") and rv["a"]["place"]["l"] in masked:
+                        okd = True
+        ctx.ob(rule, "even-port:decode", okd, "EVEN-PORT decodes (byte0 & 0x80) == 0x80 (reserved bits masked before the test)", d.where())
 
 
 NON_BE = re.compile(r"LittleEndian|NativeEndian|::(to|from)_(le|ne)_bytes$|::swap_bytes$|::to_le$|::from_le$")
@@ -178,8 +197,8 @@ def r2_4_big_endian(ctx, prog):
     ctx.extra["big_endian_calls"] = be
 
 
-def r2_5_constants(ctx, prog):
-    ctx.rule("R2.5", "RFC constants and header ranges: MAGIC_COOKIE = 0x2112A442; header writer ranges type [0..2], length "
+def r2_5_constants(ctx, prog, rule="R2.5"):
+    ctx.rule(rule, "RFC constants and header ranges: MAGIC_COOKIE = 0x2112A442; header writer ranges type [0..2], length "
                      "[2..4], cookie [4..8], id [8..20] equal the reader's; sizes 20 / 4")
     b = prog.body("stun_rs::types::MAGIC_COOKIE", required=False)
     val = None
@@ -190,7 +209,7 @@ def r2_5_constants(ctx, prog):
                     for o in s["rv"]["ops"]:
                         if o["k"] == "const" and "bits" in o:
                             val = int(o["bits"])
-    ctx.ob("R2.5", "magic-cookie", val == 0x2112A442, "MAGIC_COOKIE = %s" % (hex(val) if val is not None else None))
+    ctx.ob(rule, "magic-cookie", val == 0x2112A442, "MAGIC_COOKIE = %s" % (hex(val) if val is not None else None))
     enc = prog.body("stun_rs::context::MessageEncoder::encode")
     paths, info = C.explore_fn(prog, enc.path, "enc", [r"MessageEncoder::encode::\{closure", r"\{impl#\d+\}::encode::\{closure"])
     wr = set()
@@ -215,7 +234,7 @@ def r2_5_constants(ctx, prog):
                 elif r[0] == "RangeTo":
                     rd.add((0, r[1]))
     exp = {(0, 2), (2, 4), (4, 8), (8, 20)}
-    ctx.ob("R2.5", "header-ranges", wr >= exp and rd == exp, "writer ranges %s, reader ranges %s" % (sorted(wr), sorted(rd)), enc.where())
+    ctx.ob(rule, "header-ranges", wr >= exp and rd == exp, "writer ranges %s, reader ranges %s" % (sorted(wr), sorted(rd)), enc.where())
 
 
 def check(ctx, env):
